@@ -91,6 +91,10 @@ def cycles_checks(specs, cycles, perm):
 
 class C05(PropertyCheck):
     id = "C05"
+
+    def regenerate(self, ctx):
+        return sc.regenerate()
+
     lean_modules = ["QipVerif.Props.C05"]
     drivers = ["drv_sched"]
     theorems = [
@@ -118,6 +122,16 @@ class C05(PropertyCheck):
         "QipVerif.C05.comm_rule_table",
         "QipVerif.C05.comm_rule_abstraction",
         "QipVerif.C05.comm_rule_abs_table",
+        "QipVerif.C05.comm_rules_regenerated",
+        "QipVerif.C05.tree_set_present",
+        "QipVerif.C05.tree_set_without_fredkin",
+        "QipVerif.C05.tree_set_interpreted",
+        "QipVerif.C05.self_commuting_names_realised",
+        "QipVerif.C05.declared_never_opaque",
+        "QipVerif.C05.schedule_den_C_full",
+        "QipVerif.C05.schedule_den_C_full_fwd",
+        "QipVerif.C05.schedule_den_C_tree",
+        "QipVerif.C05.schedule_den_C_tree_circuit",
     ]
     level_text = ("Lean 4 theorems about the model of the gate scheduler, for every gate list, ASAP and ALAP, permutation "
                   "allowed or not, and every permutation-valued re-ordering oracle of the scheduling pass (covers random_shuffle, "
@@ -231,7 +245,7 @@ class C05(PropertyCheck):
         """commutation_rules over the abstraction it depends on: names (the five it tests for, names sorting
         before / between / after them, equal or different) x controls x targets"""
         _, Instruction, Scheduler, Gate, _ = sc._mods()
-        names = ["CNOT", "X", "RX", "Z", "RZ", "BERKELEY", "SNOT", "Y", "a", "CNOT2"]
+        names = ["CNOT", "X", "RX", "Z", "RZ", "BERKELEY", "SNOT", "Y", "a", "CNOT2", "QASMU", "FREDKIN", "H"]
         ctrls = [None, [0], [1], [0, 1], [1, 0]]
         tgts = [[0], [1], [2], [0, 1], [1, 2], [2, 1]]
         items = []
@@ -240,25 +254,79 @@ class C05(PropertyCheck):
                 for t in tgts:
                     items.append(Instruction(Gate(nm, targets=list(t), controls=None if c is None else list(c))))
         sch = Scheduler("ASAP")
-        lines, exp = [], []
+        pairs, exp = [], []
         for a in range(len(items)):
             fa = sc.enc_ins(*sc.ins_fields(items[a]), 1)
             for b in range(len(items)):
-                lines.append("comm g=" + fa + "|" + sc.enc_ins(*sc.ins_fields(items[b]), 1))
+                pairs.append(fa + "|" + sc.enc_ins(*sc.ins_fields(items[b]), 1))
                 exp.append(bool(sch.commutation_rules(a, b, items)))
-        outs = ctx.driver("drv_sched").run(lines)
+        drv = ctx.driver("drv_sched")
+        outs = drv.run(["comm g=" + p for p in pairs])          # the rule of the model (`commRules`)
+        outs_gen = drv.run(["commgen g=" + p for p in pairs])   # the rule regenerated from the source
         nb = 0
-        for k, (o, e) in enumerate(zip(outs, exp)):
+        for k, (o, og, e) in enumerate(zip(outs, outs_gen, exp)):
             a, b = divmod(k, len(items))
             res.case({"comm": [sc.ins_fields(items[a]), sc.ins_fields(items[b])]}, nontrivial=True,
                      tags=["comm-rules", f"answer={int(e)}"])
-            if o != f"ok {int(e)}":
+            if o != f"ok {int(e)}" or og != f"ok {int(e)}":
                 nb += 1
                 if nb <= 3:
-                    res.disagree({"comm": [sc.ins_fields(items[a]), sc.ins_fields(items[b])]}, o, e,
-                                 "commutation_rules", None)
-        res.notes.append(f"commutation_rules compared on all {len(lines)} ordered pairs over {len(names)} names x "
-                         f"{len(ctrls)} control lists x {len(tgts)} target lists")
+                    res.disagree({"comm": [sc.ins_fields(items[a]), sc.ins_fields(items[b])]},
+                                 {"commRules": o, "regenerated": og}, e, "commutation_rules", None)
+        res.notes.append(f"commutation_rules compared (model rule and regenerated rule) on all {len(pairs)} ordered pairs "
+                         f"over {len(names)} names x {len(ctrls)} control lists x {len(tgts)} target lists")
+
+    def _semantics_of_names(self, ctx, res):
+        """What `schedule_den_C_full` assumes about names beyond the IR library, checked on the real library: the other
+        spellings denote the same operator (`aliasOf`: H = SNOT, CX = CNOT, iSWAP = ISWAP, SWAPalpha = SWAPALPHA), the
+        SWAPALPHA matrix is the documented one (`Gen.G.swapalpha_`, `GateDoc.swapalpha_eq`), every name of the tree's
+        set is known to the library, and the library refuses the non-canonical shapes `shapeOK` excludes."""
+        import cmath
+        for alias, base in sc.SAME_OPERATOR.items():
+            nc, nt, npar = sc.LIBRARY[alias]
+            ts, cs = list(range(nc, nc + nt)), list(range(nc))
+            arg = 0.37 if npar else None
+            A = sc.gate_matrix([alias, ts, cs, arg], nc + nt)
+            B = sc.gate_matrix([base, ts, cs, arg], nc + nt)
+            res.case({"alias": [alias, base]}, nontrivial=True, tags=["name-semantics"])
+            if np.abs(A - B).max() > 1e-12:
+                res.disagree({"alias": [alias, base]}, "same operator", float(np.abs(A - B).max()),
+                             "another spelling of a library gate has a different matrix", None)
+        for al in (0.0, 0.37, 1.0, -2.25):
+            e = cmath.exp(1j * cmath.pi * al)
+            M = np.array([[1, 0, 0, 0], [0, (1 + e) / 2, (1 - e) / 2, 0], [0, (1 - e) / 2, (1 + e) / 2, 0], [0, 0, 0, 1]])
+            A = sc.gate_matrix(["SWAPALPHA", [0, 1], [], al], 2)
+            res.case({"swapalpha": al}, nontrivial=True, tags=["name-semantics"])
+            if np.abs(A - M).max() > 1e-12:
+                res.disagree({"swapalpha": al}, M.tolist(), A.tolist(), "SWAPALPHA matrix", None)
+        tree_set = sc.self_commuting_names()
+        _, _, _, Gate, QubitCircuit = sc._mods()
+        for name in sorted(tree_set or []):
+            res.case({"set-name": name}, nontrivial=True, tags=["name-semantics"])
+            if name not in sc.LIBRARY and name not in ("PHASEGATE", "IDLE"):
+                res.disagree({"set-name": name}, "a gate of the harness table", "unknown",
+                             "_SELF_COMMUTING_GATES lists a name the harness has no gate for", None)
+                continue
+            if name not in sc.LIBRARY:
+                continue
+            nc, nt, npar = sc.LIBRARY[name]
+            # one control / target too many or too few must be refused by the library's gate classes
+            shapes = [(list(range(nt)), list(range(nt, nt + nc + 1))), (list(range(nt + 1)), list(range(nt + 1, nt + 1 + nc))),
+                      (list(range(nt - 1)), list(range(nt, nt + nc)))]
+            if nc:
+                shapes.append((list(range(nt)), list(range(nt, nt + nc - 1))))
+            for ts, cs in shapes:
+                try:
+                    qc = QubitCircuit(6)
+                    qc.add_gate(name, targets=list(ts) or None, controls=list(cs) or None, arg_value=sc.arg_for(name, 0))
+                    qc.gates[0].get_qobj(num_qubits=6, dims=[2] * 6)
+                    ok = False
+                except Exception:
+                    ok = True
+                res.case({"shape": [name, ts, cs]}, nontrivial=True, tags=["name-semantics"])
+                if not ok:
+                    res.disagree({"shape": [name, ts, cs]}, "refused", "accepted",
+                                 "the library accepts a non-canonical shape of a self-commuting name", None)
 
     def correspondence(self, ctx, res):
         rng = ctx.rng
@@ -266,13 +334,17 @@ class C05(PropertyCheck):
         if missing or extra:
             res.notes.append(f"gate library differs from the harness table: unknown {missing}, absent {extra}")
         self._comm_exhaustive(ctx, res)
+        self._semantics_of_names(ctx, res)
         tree_set = sc.self_commuting_names()
-        if tree_set is not None:
-            model_set = set(ctx.driver("drv_sched").run(["scnames"])[0][3:].split(","))
-            res.notes.append("the tree restricts the same-name rule to _SELF_COMMUTING_GATES (%d names); " % len(tree_set)
-                             + ("it is the set `patchNames` of schedule_den_C_patch" if model_set == set(tree_set) else
-                                "it differs from `patchNames` (%s): schedule_den_C_fixed applies if it does not contain FREDKIN"
-                                % sorted(model_set ^ set(tree_set))))
+        ans = ctx.driver("drv_sched").run(["scnames"])[0]
+        model_set = None if ans == "none" else set(ans[3:].split(","))
+        res.case({"scnames": sorted(tree_set) if tree_set is not None else None}, nontrivial=True, tags=["name-semantics"])
+        if model_set != (None if tree_set is None else set(tree_set)):
+            res.disagree({"scnames": None}, sorted(model_set or []), sorted(tree_set or []),
+                         "_SELF_COMMUTING_GATES regenerated into Gen/SchedRule.lean differs from the set of the tree", None)
+        res.notes.append("the same-name rule is restricted to _SELF_COMMUTING_GATES (%s names, regenerated into "
+                         "Gen/SchedRule.lean; tree_set_interpreted / tree_set_without_fredkin are proved about this set)"
+                         % (len(tree_set) if tree_set is not None else "no set:"))
         settings = [(m, p) for m in ("ASAP", "ALAP") for p in (True, False)]
         # exhaustive small enumerations ------------------------------------------------------
         P_all = sc.placements(3)
